@@ -5,8 +5,12 @@ That block values equal numpy's is arithmetic over run-time data and not decided
 import ast
 import re
 
+from ..carriers import slice_bounds
 from ..core import (AnalysisError, body_nodes, call_name, dotted, is_self_attr, key_text, kwarg,
                     local_defs, names_in, params, parent, stmts_of, unparse)
+from ..linform import NotPoly, Poly, eval_poly
+from ..normal import inline_temps
+from ..pattern import find, guards_at, guards_of, iteration_source, pmatch
 
 NPC = 'tenpy/linalg/np_conserved.py'
 
@@ -102,77 +106,269 @@ def check_axis_carriers(prog, rep):
                       f.lineno)
 
 
-def check_contraction_labels(prog, rep):
-    m = prog.module(NPC)
-    # tensordot / outer: legs and labels cut at the same positions
-    f = m.func('tensordot')
-    rep.instance('LABEL-cut', {'function': 'tensordot'})
-    src = unparse(f)
-    ok = 'cut_a = a.rank - axes' in src and 'a.legs[:cut_a] + b.legs[axes:]' in src and \
-        '_drop_duplicate_labels(a._labels[:a.rank - axes], b._labels[axes:])' in src and \
-        'c_qdata[0, :cut_a] = a._qdata[0, :cut_a]' in src and \
-        'c_qdata[0, cut_a:] = b._qdata[0, axes:]' in src
-    if not ok:
-        rep.violation('LABEL-cut', m, 'tensordot', 'cut-positions',
+def _stmt(n):
+    while not isinstance(n, ast.stmt):
+        n = parent(n)
+    return n
+
+
+def _side_of(expr, a='a', b='b'):
+    """'a' / 'b' / None: which operand's carriers an expression is built from"""
+    nm = names_in(expr)
+    if a in nm and b not in nm:
+        return 'a'
+    if b in nm and a not in nm:
+        return 'b'
+    return None
+
+
+def _check_cuts(rep, m, q, f, want, need):
+    """every slice of a per-axis carrier of operand X is cut at the one position want[X];
+    `need`: (operand, carrier) pairs that must occur"""
+    cuts = slice_bounds(f)
+    seen = set()
+    for c in cuts:
+        if c.operand not in want:
+            continue
+        seen.add((c.operand, c.carrier))
+        for bnd in (c.lo, c.hi):
+            if bnd is not None and not (bnd == want[c.operand]):
+                rep.violation('LABEL-cut', m, q, 'cut-positions:%s.%s' % (c.operand, c.carrier),
+                              '`%s` cuts the %s of `%s` at [%r], but the other per-axis carriers '
+                              '(legs / labels / block-index columns) of that operand are cut at '
+                              '[%r]: they no longer describe the same axes' %
+                              (unparse(c.node), c.carrier, c.operand, bnd, want[c.operand]),
+                              c.node.lineno)
+    missing = [x for x in need if x not in seen]
+    rep.instance('LABEL-cut', {'function': q, 'carrier_slices': sorted('%s.%s' % x for x in seen)})
+    if missing:
+        rep.violation('LABEL-cut', m, q, 'cut-positions',
                       'the result keeps the first rank(a)-axes legs of a and the last rank(b)-axes '
                       'legs of b: legs, labels and block indices must all be cut at these '
-                      'positions', f.lineno)
-    f = m.func('_tensordot_worker')
-    rep.instance('LABEL-cut', {'function': '_tensordot_worker'})
-    src = unparse(f)
-    if 'a.legs[:cut_a] + b.legs[cut_b:]' not in src or 'cut_a = a.rank - axes' not in src or \
-            'cut_b = axes' not in src or \
-            'np.concatenate((res_qdata_a, res_qdata_b), axis=1)' not in src:
-        rep.violation('LABEL-cut', m, '_tensordot_worker', 'cut-positions',
+                      'positions (no slice found for %s)' % missing, f.lineno)
+    # concatenations put the part of a first
+    for n in ast.walk(f):
+        if isinstance(n, ast.BinOp) and isinstance(n.op, ast.Add):
+            l, r = _carrier_side(n.left), _carrier_side(n.right)
+            if l and r and (l, r) != ('a', 'b'):
+                rep.violation('LABEL-cut', m, q, 'order:' + unparse(n)[:40],
+                              '`%s`: the axes of a come first, then those of b' % unparse(n),
+                              n.lineno)
+        if isinstance(n, ast.Call) and call_name(n) == '_drop_duplicate_labels' and \
+                len(n.args) == 2:
+            l, r = _carrier_side(n.args[0]), _carrier_side(n.args[1])
+            if (l, r) != ('a', 'b'):
+                rep.violation('LABEL-cut', m, q, 'order:labels',
+                              '`%s`: labels of a first, then those of b' % unparse(n), n.lineno)
+
+
+def _carrier_side(e):
+    """'a' / 'b' when e is (a slice of) a per-axis carrier of that operand"""
+    base = e
+    while isinstance(base, ast.Subscript):
+        base = base.value
+    if isinstance(base, ast.Attribute) and isinstance(base.value, ast.Name) and \
+            base.attr in ('legs', '_labels', '_qdata') and base.value.id in ('a', 'b'):
+        return base.value.id
+    return None
+
+
+def check_contraction_labels(prog, rep):
+    m = prog.module(NPC)
+    A, B, AX = Poly.sym('a.rank'), Poly.sym('b.rank'), Poly.sym('axes')
+    # tensordot / worker: legs, labels and block indices cut at the same positions
+    f = inline_temps(m.func('tensordot'))
+    _check_cuts(rep, m, 'tensordot', f, {'a': A - AX, 'b': AX},
+                [('a', 'legs'), ('b', 'legs'), ('a', 'labels'), ('b', 'labels'),
+                 ('a', 'qdata'), ('b', 'qdata')])
+    # one-block path: destination columns [:P] from a, [P:] from b
+    for st in ast.walk(f):
+        if isinstance(st, ast.Assign) and isinstance(st.targets[0], ast.Subscript) and \
+                _carrier_side(st.value):
+            sl = st.targets[0].slice
+            col = sl.elts[1] if isinstance(sl, ast.Tuple) and len(sl.elts) == 2 else sl
+            if isinstance(col, ast.Slice):
+                side = _carrier_side(st.value)
+                try:
+                    lo = eval_poly(col.lower, {}) if col.lower is not None else None
+                    hi = eval_poly(col.upper, {}) if col.upper is not None else None
+                except NotPoly:
+                    continue
+                rep.instance('LABEL-cut', {'function': 'tensordot', 'store': key_text(st)})
+                ok = (side == 'a' and lo is None and hi == A - AX) or \
+                    (side == 'b' and hi is None and lo == A - AX)
+                if not ok:
+                    rep.violation('LABEL-cut', m, 'tensordot', 'cut-positions:dest',
+                                  '`%s`: the block indices of a fill the columns [:rank(a)-axes] '
+                                  'of the result, those of b the columns behind' % key_text(st),
+                                  st.lineno)
+    f = inline_temps(m.func('_tensordot_worker'))
+    _check_cuts(rep, m, '_tensordot_worker', f, {'a': A - AX, 'b': AX},
+                [('a', 'legs'), ('b', 'legs')])
+    # block indices of the result: a-part columns first
+    rep.instance('LABEL-cut', {'function': '_tensordot_worker', 'check': 'qdata order'})
+    okq = False
+    side = {}
+    pre_names = {}
+    for st in stmts_of(f):
+        if not isinstance(st, ast.Assign) or not isinstance(st.targets[0], ast.Tuple):
+            continue
+        v = st.value
+        # a_pre, b_pre, .. = _tensordot_pre_worker(a, b, ..): position k belongs to argument k
+        if isinstance(v, ast.Call) and call_name(v) == '_tensordot_pre_worker' and \
+                [unparse(x) for x in v.args[:2]] == ['a', 'b']:
+            for k, e in enumerate(st.targets[0].elts[:2]):
+                if isinstance(e, ast.Name):
+                    pre_names[e.id] = 'ab'[k]
+        sd = None
+        if isinstance(v, ast.Name) and v.id in pre_names:
+            sd = pre_names[v.id]
+        if isinstance(v, ast.Subscript) and isinstance(v.value, ast.Call) and \
+                call_name(v.value) == '_tensordot_pre_worker' and \
+                isinstance(v.slice, ast.Constant) and v.slice.value in (0, 1) and \
+                [unparse(x) for x in v.value.args[:2]] == ['a', 'b']:
+            sd = 'ab'[v.slice.value]
+        if sd:
+            for e in st.targets[0].elts:
+                if isinstance(e, ast.Name):
+                    side[e.id] = sd
+    def sides_in(v):
+        sd = {side[x] for x in names_in(v) if x in side}
+        for x in ast.walk(v):
+            if isinstance(x, ast.Subscript) and isinstance(x.value, ast.Call) and \
+                    call_name(x.value) == '_tensordot_pre_worker' and \
+                    isinstance(x.slice, ast.Constant) and x.slice.value in (0, 1) and \
+                    [unparse(y) for y in x.value.args[:2]] == ['a', 'b']:
+                sd.add('ab'[x.slice.value])
+        return sd
+
+    if True:
+        acc = {}
+        for c in body_nodes(f):
+            e = pmatch('$l.append($$v)', c)
+            if e:
+                sd = sides_in(e['$$v'])
+                if len(sd) == 1:
+                    acc.setdefault(e['$l'], set()).update(sd)
+        for c in body_nodes(f):
+            e = pmatch('np.concatenate(($x, $y), axis=1)', c) or \
+                pmatch('np.hstack(($x, $y))', c) or pmatch('np.hstack([$x, $y])', c) or \
+                pmatch('np.concatenate([$x, $y], axis=1)', c)
+            if e and acc.get(e['$x']) == {'a'} and acc.get(e['$y']) == {'b'}:
+                okq = True
+    if not okq:
+        rep.violation('LABEL-cut', m, '_tensordot_worker', 'cut-positions:qdata',
                       'result legs = a.legs[:cut_a] + b.legs[cut_b:] with block indices '
-                      'concatenated in the same order', f.lineno)
-    f = m.func('outer')
+                      'concatenated in the same order (kept columns of a, then of b)', f.lineno)
+    # outer: everything of a followed by everything of b
+    f = inline_temps(m.func('outer'))
     rep.instance('LABEL-cut', {'function': 'outer'})
-    src = unparse(f)
-    if 'Array(a.legs + b.legs' not in src or '_drop_duplicate_labels(a._labels, b._labels)' not in \
-            src or 'qdata_res[:, :a.rank] = qdata_a[grid[:, 0]]' not in src or \
-            'qdata_res[:, a.rank:] = qdata_b[grid[:, 1]]' not in src:
+    why = None
+    if not find('Array(a.legs + b.legs, $$d, $$q)', f):
+        why = 'legs of the result must be a.legs + b.legs'
+    elif not find('_drop_duplicate_labels(a._labels, b._labels)', f):
+        why = 'labels: those of a, then those of b (duplicates dropped)'
+    else:
+        dst = {}
+        for st in stmts_of(f):
+            e = pmatch('$d[:, :$$p] = $$v', st)
+            if e:
+                dst['a'] = (e['$$p'], e['$$v'], e['$d'])
+            e = pmatch('$d[:, $$p:] = $$v', st)
+            if e:
+                dst['b'] = (e['$$p'], e['$$v'], e['$d'])
+        if set(dst) != {'a', 'b'}:
+            why = 'block-index columns of a and of b are stored side by side'
+        else:
+            for sd, col in (('a', '0'), ('b', '1')):
+                pz, v, d = dst[sd]
+                if unparse(pz) != 'a.rank' or ('%s._qdata' % sd) not in unparse(v) or \
+                        not find('$$g[:, %s]' % col, v):
+                    why = 'columns [:a.rank] hold the block indices of a (first grid column), ' \
+                        'columns [a.rank:] those of b (second grid column); found `%s = %s`' % (
+                            d, unparse(v)[:50])
+            g = [c for c in body_nodes(f) if isinstance(c, ast.Subscript) and
+                 unparse(c.value) == 'np.mgrid']
+            if not g or not isinstance(g[0].slice, ast.Tuple) or len(g[0].slice.elts) != 2 or \
+                    'a._qdata' not in unparse(g[0].slice.elts[0]) or \
+                    'b._qdata' not in unparse(g[0].slice.elts[1]):
+                why = why or 'the block grid enumerates (block of a, block of b)'
+            prod = [e for n, e in find('$da[$i] * $db[$j]', f)]
+            if prod:
+                src_i = iteration_source(f, prod[0]['$i'])
+                da = local_defs(f).get(prod[0]['$da'], [])
+                db = local_defs(f).get(prod[0]['$db'], [])
+                if not (da and 'a._data' in unparse(da[0]) and db and 'b._data' in unparse(db[0])):
+                    why = why or 'block (i, j) of the result is block i of a times block j of b'
+    if why:
         rep.violation('LABEL-cut', m, 'outer', 'order',
                       'outer(a, b): legs, labels and block-index columns are those of a followed '
-                      'by those of b', f.lineno)
+                      'by those of b: ' + why, f.lineno)
     # _drop_duplicate_labels: a label occurring on both sides is dropped on BOTH
     f = m.func('_drop_duplicate_labels')
     rep.instance('LABEL-helper', {'function': '_drop_duplicate_labels'})
-    src = unparse(f)
-    if 'a_labels[i] = None' not in src or 'b_labels[j] = None' not in src or \
-            'a_labels.extend(b_labels)' not in src or 'list(a_labels)' not in src:
+    why = _drop_dup_defect(f)
+    if why:
         rep.violation('LABEL-helper', m, '_drop_duplicate_labels', 'duplicates',
                       'duplicate labels are set to None in both operands (on copies of the lists), '
-                      'result = a-labels followed by b-labels', f.lineno)
+                      'result = a-labels followed by b-labels: ' + why, f.lineno)
     # conj: every label conjugated
-    f = m.func('Array.conj')
+    f = inline_temps(m.func('Array.conj'), keep=('labels', ))
     rep.instance('LABEL-helper', {'function': 'Array.conj'})
-    ok = any(isinstance(s, ast.For) and 'enumerate(labels)' in unparse(s.iter) and
-             'self._conj_leg_label(lbl)' in unparse(s) and 'lbl is not None' in unparse(s)
-             for s in ast.walk(f))
+    ok = False
+    for c in body_nodes(f):
+        e = pmatch('$$s._conj_leg_label($l)', c)
+        if not e:
+            continue
+        l = e['$l']
+        g = {(t, pol) for t, pol, _ in guards_at(f, c)}
+        src = iteration_source(f, l)
+        srct = unparse(src) if src is not None else ''
+        if isinstance(src, ast.Name):
+            srct = ' '.join(unparse(v) for v in local_defs(f).get(src.id, [])) or srct
+        stored = any(isinstance(st, ast.Assign) and unparse(st.targets[0]) == 'res._labels'
+                     for st in stmts_of(f))
+        if ('%s is None' % l, False) in g and 'res._labels' in srct and stored:
+            ok = True
     if not ok:
         rep.violation('LABEL-helper', m, 'Array.conj', 'labels',
                       'conj must map every non-None label through _conj_leg_label', f.lineno)
     # combine_legs / split_legs label helpers
-    f = m.func('Array.combine_legs')
+    f = inline_temps(m.func('Array.combine_legs'), keep=('labels', 'pipe_labels'))
     rep.instance('LABEL-helper', {'function': 'Array.combine_legs'})
-    src = unparse(f)
-    if 'self._combine_leg_labels([labels[c] for c in cl]) for cl in combine_legs' not in src or \
-            'labels[na:na + p.nlegs] = [plab]' not in src:
+    why = _combine_labels_defect(f)
+    if why:
         rep.violation('LABEL-helper', m, 'Array.combine_legs', 'pipe-labels',
                       'the label of a pipe combines the labels of exactly the legs of that pipe '
-                      'and replaces them at the new axis', f.lineno)
-    f = m.func('Array.split_legs')
+                      'and replaces them at the new axis: ' + why, f.lineno)
+    f = inline_temps(m.func('Array.split_legs'), keep=('labels', ))
     rep.instance('LABEL-helper', {'function': 'Array.split_legs'})
-    src = unparse(f)
-    if 'labels[a:a + 1] = self._split_leg_label(labels[a], self.legs[a].nlegs)' not in src or \
-            'sorted(axes, reverse=True)' not in src:
+    why = 'the replacement of the pipe label by its sub-labels was not found'
+    for st in ast.walk(f):
+        e = pmatch('$L[$a:$a + 1] = $$rhs', st) if isinstance(st, ast.Assign) else None
+        if not e:
+            continue
+        L_, a_ = e['$L'], e['$a']
+        r = pmatch('self._split_leg_label(%s[%s], self.legs[%s].nlegs)' % (L_, a_, a_), e['$$rhs'])
+        it = iteration_source(f, a_)
+        itt = unparse(it) if it is not None else ''
+        desc = bool(it is not None and (
+            pmatch('sorted($$x, reverse=True)', it) or pmatch('reversed($$x)', it) or
+            pmatch('$$x[::-1]', it)))
+        if not r:
+            why = '`%s` must split the label at that axis into the nlegs sub-labels of the pipe ' \
+                'at the same axis' % key_text(st)[:70]
+        elif not desc or 'axes' not in itt:
+            why = 'axes must be processed from the back (`%s`) so earlier positions stay valid' % itt
+        else:
+            why = None
+    if why:
         rep.violation('LABEL-helper', m, 'Array.split_legs', 'split-labels',
                       'splitting replaces the pipe label at axis a by its nlegs sub-labels, '
-                      'processing axes from the back so positions stay valid', f.lineno)
+                      'processing axes from the back so positions stay valid: ' + why, f.lineno)
     # add_leg / add_trivial_leg: insert at the same axis everywhere
     for qn in ('Array.add_leg', 'Array.add_trivial_leg'):
-        f = m.func(qn)
+        f = inline_temps(m.func(qn))
         rep.instance('AXIS-insert', {'function': qn})
         ins = [unparse(c.args[0]) for c in body_nodes(f) if isinstance(c, ast.Call) and
                call_name(c) == 'insert' and c.args]
@@ -180,14 +376,103 @@ def check_contraction_labels(prog, rep):
             rep.violation('AXIS-insert', m, qn, 'insert-axis',
                           'the new leg and its label must be inserted at the same position `axis` '
                           '(got %s)' % ins, f.lineno)
-    f = m.func('Array.add_trivial_leg')
-    src = unparse(f)
+    f = inline_temps(m.func('Array.add_trivial_leg'))
     rep.instance('AXIS-insert', {'function': 'Array.add_trivial_leg', 'check': 'qdata/blocks'})
-    if 'res._qdata[:, :axis]' not in src or 'res._qdata[:, axis:]' not in src or \
-            'T.shape[:axis] + (1,) + T.shape[axis:]' not in src:
+    cuts = [c for c in slice_bounds(f) if c.carrier in ('qdata', 'shape')]
+    axp = Poly.sym('axis')
+    kinds = {c.carrier for c in cuts}
+    bad = [c for c in cuts for bnd in (c.lo, c.hi) if bnd is not None and not (bnd == axp)]
+    if kinds != {'qdata', 'shape'} or bad or len(cuts) < 4:
         rep.violation('AXIS-insert', m, 'Array.add_trivial_leg', 'insert-axis-data',
-                      'block indices and block shapes get the new axis at the same position',
-                      f.lineno)
+                      'block indices and block shapes get the new axis at the same position '
+                      '(slices found: %s)' % cuts, f.lineno)
+
+
+def _drop_dup_defect(f):
+    pa, pb = params(f)[0], params(f)[1]
+    defs = local_defs(f)
+
+    def copy_of(name):
+        """which parameter the list `name` is a copy of"""
+        for v in defs.get(name, []):
+            for p_ in (pa, pb):
+                if pmatch('list(%s)' % p_, v) or pmatch('%s[:]' % p_, v) or \
+                        pmatch('%s.copy()' % p_, v) or pmatch('[$x for $x in %s]' % p_, v):
+                    return p_
+        return None
+
+    stores = [(n, e) for n, e in find('$L[$$i] = None', f)]
+    lists = {e['$L'] for _, e in stores}
+    src = {L_: copy_of(L_) for L_ in lists}
+    if sorted(src.values(), key=str) != sorted([pa, pb]):
+        return 'the label must be set to None in a copy of each of the two lists (got %s)' % src
+    la = [L_ for L_, p_ in src.items() if p_ == pa][0]
+    lb = [L_ for L_, p_ in src.items() if p_ == pb][0]
+    # guarded by membership of the a-label in the b-list; b index = position of that label
+    for n, e in stores:
+        g = {(t, pol) for t, pol, _ in guards_of(f, n)}
+        if not any(pol and t.endswith(' in %s' % lb) for t, pol in g):
+            return '`%s` must happen only for labels present in both lists' % key_text(n)
+        if e['$L'] == lb:
+            idx = e['$$i']
+            txt = unparse(idx)
+            if isinstance(idx, ast.Name):
+                txt = ' '.join(unparse(v) for v in defs.get(idx.id, []))
+            if '%s.index(' % lb not in txt:
+                return 'the entry of the second list to drop is the position of the same label'
+    rets = [st for st in ast.walk(f) if isinstance(st, ast.Return)]
+    if len(rets) != 1:
+        return 'single return expected'
+    rv = rets[0].value
+    if pmatch('%s + %s' % (la, lb), rv) and unparse(rv).startswith(la):
+        return None
+    if isinstance(rv, ast.Name) and rv.id == la and find('%s.extend(%s)' % (la, lb), f):
+        return None
+    return 'result must be the a-labels followed by the b-labels (returns `%s`)' % unparse(rv)
+
+
+def _combine_labels_defect(f):
+    calls = [c for c in body_nodes(f) if pmatch('self._combine_leg_labels($$arg)', c)]
+    if len(calls) != 1:
+        return '%d calls of _combine_leg_labels' % len(calls)
+    arg = pmatch('self._combine_leg_labels($$arg)', calls[0])['$$arg']
+    if isinstance(arg, ast.Name):
+        d = local_defs(f).get(arg.id, [])
+        arg = d[0] if len(d) == 1 else arg
+    e = pmatch('[$L[$c] for $c in $cl]', arg)
+    if not e:
+        return 'the pipe label must combine `[labels[c] for c in cl]`, the labels of the legs of ' \
+            'that pipe (found `%s`)' % unparse(arg)[:60]
+    L_, cl = e['$L'], e['$cl']
+    src = iteration_source(f, cl)
+    if src is None or unparse(src) != 'combine_legs':
+        return 'pipe labels must be generated for each entry of combine_legs'
+    # where the produced labels are collected
+    st = _stmt(calls[0])
+    coll = None
+    if isinstance(st, ast.Assign) and isinstance(st.targets[0], ast.Name):
+        coll = st.targets[0].id
+    ap = pmatch('$pl.append($$x)', st.value) if isinstance(st, ast.Expr) else None
+    if ap:
+        coll = ap['$pl']
+    if coll is None:
+        return 'the generated pipe labels are not collected in a list'
+    rep_st = [(n, e2) for n, e2 in find('%s[$na:$na + $p.nlegs] = [$pl]' % L_, f)]
+    if len(rep_st) != 1:
+        return 'the labels of the combined legs must be replaced by `[pipe label]` at ' \
+            '[new axis : new axis + nlegs]'
+    n2, e2 = rep_st[0]
+    srcs = [iteration_source(f, e2[k]) for k in ('$na', '$p', '$pl')]
+    if [unparse(x) if x is not None else None for x in srcs] != ['new_axes', 'pipes', coll]:
+        return 'new axis, pipe and pipe label must run in parallel over new_axes / pipes / the ' \
+            'generated labels'
+    lp = parent(n2)
+    while lp is not None and not isinstance(lp, ast.For):
+        lp = parent(lp)
+    gen_end = getattr(parent(st) if isinstance(parent(st), ast.For) else st, 'end_lineno', st.lineno)
+    if lp is None or gen_end >= lp.lineno:
+        return 'all pipe labels must be generated before the loop that shifts the entries of labels'
+    return None
 
 
 def check_binary_sides(prog, rep):
